@@ -62,7 +62,17 @@ def check(chk):
     chk.judge(len(uerr) == 1 and all(fa.knows('proto_version < 4') is True for fa, _ in fl.at(uerr[0])), 'C30.unset', bind, 'explicit UNSET below v4 -> ValueError', 'UNSET below v4 not rejected')
     fill = [n for n in uc if n not in inloop]
     ok = len(fill) == 1 and all(fa.knows('proto_version < 4') is False for fa, _ in fl.at(fill[0]))
-    chk.judge(ok and 'diff = col_meta_len - len(self.values)' in s and 'range(diff)' in s, 'C30.unset', bind, 'trailing columns filled with UNSET only on v4+, exactly col_meta_len - len(values) times',
+    from ..sem import resolve
+    from ..core import parent as _parent
+    count_ok = False
+    if fill:
+        lpf = _parent(fill[0].ast)
+        while lpf is not None and not isinstance(lpf, (ast.For, ast.While, ast.FunctionDef)):
+            lpf = _parent(lpf)
+        if isinstance(lpf, ast.For):
+            want_ = src(resolve(bind, ast.parse('range(col_meta_len - len(self.values))', mode='eval').body))
+            count_ok = src(resolve(bind, lpf.iter)) == want_
+    chk.judge(ok and count_ok, 'C30.unset', bind, 'trailing columns filled with UNSET only on v4+, exactly col_meta_len - len(values) times',
               'trailing fill happens below v4 or with a wrong count')
     ser = [n for n in body_walk(lp) if isinstance(n, ast.Call) and src(n.func) == 'col_type.serialize']
     chk.judge(len(ser) == 1 and [src(a) for a in ser[0].args] == ['value', 'proto_version'], 'C30.order', lp, 'each value serialized with its own column type and the statement protocol version', 'serialization call changed')
